@@ -273,3 +273,76 @@ Fixpoint all_scheds (k n : nat) : list (list nat) :=
   | O => [[]]
   | S n' => flat_map (fun s => map (fun t => t :: s) (seq 0 k)) (all_scheds k n')
   end.
+
+(* ------------------------------------------------------------------------------------ *)
+(* (d) register.Namespaced in general: any number of goroutines performing Register /
+   AddNamespace / Get, each operation executing an arbitrary event list (a control-flow path as
+   regenerated from the sources).  The outer register (object obj, contents nsmap) is only touched
+   through its self-locking methods:
+     a call "Get":   looks the namespace up and keeps whether it was found; in a Register
+                     operation that found it, the name is stored in the register found (the call
+                     inner.Register(name, v): the inner register is an object of its own, does its
+                     own locking, and is never replaced while present; the extractor does not list
+                     it; the model performs it in the same atomic step as the Get that found it);
+     any other call: data.Register(namespace, fresh register): executed only when the lookup did
+                     not find the namespace (the path with the early return does not reach it),
+                     it OVERWRITES whatever is stored under the namespace. *)
+Inductive ns_kind :=
+| KReg (ns name : string) (v : Z)      (* Namespaced.Register(ns, name, v) *)
+| KAdd (ns : string)                   (* Namespaced.AddNamespace(ns) *)
+| KGet (ns : string).                  (* Namespaced.Get(ns) *)
+Definition kind_ns (k : ns_kind) : string :=
+  match k with KReg ns _ _ => ns | KAdd ns => ns | KGet ns => ns end.
+
+Inductive nres := NKind (k : ns_kind) | NFoundT | NNotFound | NStored.
+
+Definition ns_call (k : ns_kind) (f : string) (r : @res nres) (d : nsmap) : @res nres * nsmap :=
+  if String.eqb f "Get" then
+    match lookup (kind_ns k) d with
+    | Some inner =>
+        (RVal NFoundT, match k with KReg ns name v => set ns (set name v inner) d | _ => d end)
+    | None => (RVal NNotFound, d)
+    end
+  else
+    match r with
+    | RVal NNotFound =>
+        match k with
+        | KReg ns name v => (RVal NStored, set ns [(name, v)] d)
+        | KAdd ns => (RVal NStored, set ns [] d)
+        | KGet _ => (r, d)
+        end
+    | _ => (r, d)
+    end.
+
+Definition ns_op (k : ns_kind) (body : list lev) : @op nsmap nres :=
+  mkop body (fun _ => NKind k) (fun d => d) (ns_call k).
+
+(* the shape of a compound check-then-act on the object obj, as an executable check of a path:
+   every self-locking call is on obj; every mutating call (anything but "Get") happens under the
+   WRITE lock, after a "Get" made in the same critical section.  (LockEv.calls_atomic does not ask
+   for the write lock: see Properties, C20_ex_calls_atomic_rlock.) *)
+Definition is_hwrite (h : held) : bool := match h with HWrite _ => true | _ => false end.
+Definition is_lock_ev (e : lev) : bool :=
+  match e with LLock _ | LUnlock _ | LRLock _ | LRUnlock _ => true | _ => false end.
+Fixpoint cta_run (obj : string) (h : held) (got : bool) (l : list lev) : bool :=
+  match l with
+  | [] => true
+  | e :: r =>
+      match e with
+      | LSafeCall ob f =>
+          String.eqb ob obj &&
+          (if String.eqb f "Get" then cta_run obj h (is_hwrite h) r
+           else is_hwrite h && got && cta_run obj h got r)
+      | _ => match lev_step h e with
+             | Some h' => cta_run obj h' (if is_lock_ev e then false else got) r
+             | None => false
+             end
+      end
+  end.
+Definition cta_ok (obj : string) (l : list lev) : bool := cta_run obj HNone false l.
+
+(* the paths of the three methods as regenerated from the sources today *)
+Definition ns_paths_today : list (list lev) :=
+  [ [LLock "mutex"; LSafeCall "data" "Get"; LUnlock "mutex"];
+    [LLock "mutex"; LSafeCall "data" "Get"; LSafeCall "data" "Register"; LUnlock "mutex"];
+    [LSafeCall "data" "Get"] ].
